@@ -484,11 +484,16 @@ def split(m, w, k=0, leader=N1):
     return w
 
 
-def battery_lagsnap(m, w, ops=(0, 1), leader=N1, lag=None, do_compact=True):
+def battery_lagsnap(m, w, ops=(0, 1), leader=N1, lag=None, do_compact=True, pre=()):
     """`lag` is cut off, battery operations `ops` are committed by the others, the leader compacts:
-    `lag` will receive the batteries through a snapshot."""
+    `lag` will receive the batteries through a snapshot. Operations `pre` are applied by everybody
+    first, so that `lag` holds non-empty batteries when the snapshot (possibly of emptied ones) arrives."""
     lag = lag or addr(m.cfg.n)
     w = steady(m, w, 0, leader)
+    for oi in pre:
+        w = m.do(w, ('BO', leader, oi, 'free'), ('Z', leader))
+        w = m.drain(w)
+        w = beat(m, w, leader, times=3)
     w = m.isolate(w, lag)
     rest = [n for n, _ in w.nodes if n != lag]
     for oi in ops:
